@@ -661,6 +661,14 @@ class Program:
                 # several new functions share the signature: the one with the same callers and callees (outside the renamed set)
                 po = profile_old(old)
                 cands = [f for f in cands if profile_new(f) == po]
+            if len(cands) > 1 and len(table[old]) >= 5:
+                # still tied: the one whose MIR skeleton (locals, their types, block count) is the pinned one
+                import hashlib
+                def shp(f):
+                    return "%d:%d:%s" % (len(f.locals), len(f.blocks), hashlib.sha1("|".join(f.locals).encode()).hexdigest()[:12])
+                c2 = [f for f in cands if shp(f) == table[old][4]]
+                if c2:
+                    cands = c2
             if len(cands) == 1 and sig:
                 f = cands[0]
                 used.add(f.id)
